@@ -706,12 +706,16 @@ impl Sim {
                 }
             }
             Step::SetRef { slot, target } => {
-                if !self.cfg.refs || self.cfg.vis != 0 || slot >= nslots || target >= nslots {
+                if !self.cfg.refs || slot >= nslots || target >= nslots {
                     return;
                 }
                 let (Some(e), Some(t)) = (self.slots[slot], self.slots[target]) else { return };
                 if !self.marked[target] {
                     return;
+                }
+                // generator soundness: the target is visible to every client that can see the referrer
+                if self.cfg.vis != 0 && (0..nclients).any(|c| self.clients[c].connected && self.visible_to(c, slot) && !self.visible_to(c, target)) {
+                    return self.exclude("reference_to_entity_hidden_from_a_viewer");
                 }
                 if self.cfg.periodic && self.entity_has_p(slot) && !self.cfg.no_exclusions {
                     return self.exclude("F4_other_change_on_entity_with_periodic_component");
@@ -809,6 +813,14 @@ impl Sim {
                 let Some(e) = self.slots[slot] else { return };
                 if self.locked[slot] && !self.cfg.no_exclusions {
                     return self.exclude("F20_locked_slot");
+                }
+                if self.cfg.refs {
+                    // keep "target visible to whoever sees the referrer" true
+                    let hides_target = !visible && (0..nslots).any(|r| self.refs[r] == Some(slot) && self.slots[r].is_some() && self.visible_to(client, r));
+                    let shows_referrer = visible && self.refs[slot].is_some_and(|t| !self.visible_to(client, t));
+                    if hides_target || shows_referrer {
+                        return self.exclude("reference_to_entity_hidden_from_a_viewer");
+                    }
                 }
                 let id = self.clients[client].id;
                 self.server.world_mut().get_mut::<ClientVisibility>(id).unwrap().set_visibility(e, visible);
